@@ -202,6 +202,7 @@ STRENGTHENED = {
     "C06-block2-szx7-cap-breaks-slicing": "missed at first; C06 gained requests that ask for the (reserved) size exponent 7",
     "C08-direct-send-forgets-held-back": "missed at first; C08 gained registrations whose notifications are partly confirmable and partly non-confirmable",
     "C10-fallback-ack-narrow-except": "missed by C10 at first (C09's unserialisable-response outcomes reported it); C10 gained handlers whose answer cannot be serialised (seven kinds x four delays x CON/NON) and the count of acknowledgements per request",
+    "C20-linkformat-parse-repeated-attr-collapsed": "missed at first; C20's link alphabet gained a link with a repeated attribute",
     "C18-backlog-continuation-deferred": "missed at first; C18 gained datagrams (among them an acknowledgement) read in the pass in which the shutdown begins, before its first step",
     "C18-peer-shutdown-stops-all-handlers": "not reported by C18 (nothing in it is about the context's own shutdown); C08's rule that a registration only goes away for a reason concerning its own endpoint reports it",
     "C19-expanduser-after-join": "missed at first; C19 gained the server whose root is '.' with the home directory elsewhere",
